@@ -413,8 +413,10 @@ class SpawnBase(object):
         if kw:
             raise TypeError("Unknown keyword arguments: {}".format(kw))
 
-        if (isinstance(pattern_list, self.allowed_string_types) or
+        if (isinstance(pattern_list, (bytes, text_type)) or
                 pattern_list in (TIMEOUT, EOF)):
+            # A string of the wrong type is a single (bad) pattern, too: it
+            # must not be taken apart as a sequence of patterns.
             pattern_list = [pattern_list]
 
         def prepare_pattern(pattern):
